@@ -22,6 +22,11 @@ pub fn reader_classes() -> Vec<&'static str> {
         "frag_payload_short", "frag_payload_long", "frag_many_open",
         "mangle_truncate_all", "mangle_otnh_zero", "mangle_otnh_small", "mangle_otnh_large", "mangle_magic", "mangle_version",
         "mangle_kind_unknown", "mangle_empty_body", "mangle_header_only", "mangle_short",
+        // sequences: a first datagram prepares the state in which the second one is expensive
+        "seq_data_far_hb_wide", "seq_data_far_hb_window", "seq_frag_far_hb_wide", "seq_gap_far_hb_wide", "seq_hb_wide_data_far_hb_wide",
+        "seq_data_far_gap_wide", "seq_two_far_data_hb_between",
+        // the datagram as such (meaningful on the socket path; harmless when injected directly)
+        "sock_empty", "sock_one_byte", "sock_max_size", "sock_burst_64", "sock_empty_between_valid",
     ]
 }
 
@@ -30,6 +35,7 @@ pub fn writer_classes() -> Vec<&'static str> {
     vec![
         "ack_base_zero_bits", "ack_base_negative", "ack_base_2e62", "ack_base_max", "ack_bits_256_far", "ack_numbits_300",
         "ack_count_min", "ack_request_unwritten", "nackfrag_huge", "nackfrag_zero", "ack_truncated", "ack_unknown_writer",
+        "seq_ack_far_then_low", "seq_ack_low_bits_then_far",
     ]
 }
 
@@ -203,6 +209,48 @@ pub fn reader_datagrams(cls: &str, ctx: &Ctx) -> Vec<Vec<u8>> {
         "mangle_kind_unknown" => vec![wire::encode(p, &[Sub::Other { kind: 0x55, flags: 1, body: vec![1, 2, 3, 4, 5, 6, 7, 8] }, Sub::Other { kind: 0x80, flags: 1, body: vec![] }])],
         "mangle_empty_body" => [0x06u8, 0x07, 0x08, 0x09, 0x0e, 0x12, 0x13, 0x15, 0x16].iter().map(|k| wire::encode(p, &[Sub::Other { kind: *k, flags: 1, body: vec![] }])).collect(),
         "mangle_header_only" => vec![wire::encode(p, &[])],
+        "sock_empty" => vec![vec![], vec![]],
+        "sock_one_byte" => vec![vec![b'R'], vec![0]],
+        "sock_max_size" => {
+            let mut d = wire::encode(p, &[Sub::Other { kind: 0x55, flags: 1, body: vec![0xAB; 60_000] }]);
+            d.resize(65_507, 0xCD);
+            vec![d.clone(), d]
+        }
+        "sock_burst_64" => (0..64).map(|i| wire::encode(p, &[Sub::Other { kind: 0x55, flags: 1, body: vec![i as u8; 8] }])).collect(),
+        "sock_empty_between_valid" => vec![hb(1, n, c), vec![], hb(1, n, c + 1), vec![], vec![]],
+        // a change far ahead is known, then the HEARTBEAT advertises everything up to it
+        "seq_data_far_hb_wide" => {
+            let far = n + (1i64 << 40);
+            vec![wire::encode(p, &[data(ctx, far, Some(good_payload(3)), None, false)]), hb(1, far, c)]
+        }
+        "seq_data_far_hb_window" => {
+            let far = n + 5_000_000;
+            vec![wire::encode(p, &[data(ctx, far, Some(good_payload(3)), None, false)]), hb(n, far - 1, c), hb(far - 10, far + 10, c + 1)]
+        }
+        "seq_frag_far_hb_wide" => {
+            let far = n + (1i64 << 40);
+            vec![wire::encode(p, &[frag(ctx, far, 1, 1, 8, 24, vec![1; 8])]), hb(1, far, c)]
+        }
+        "seq_gap_far_hb_wide" => {
+            let far = n + (1i64 << 40);
+            vec![gap(far, NumSet::from_set(far + 1, &[far + 2])), hb(1, far + 3, c)]
+        }
+        "seq_hb_wide_data_far_hb_wide" => {
+            let far = n + (1i64 << 40);
+            vec![hb(1, far, c), wire::encode(p, &[data(ctx, far, Some(good_payload(3)), None, false)]), hb(1, far, c + 1), hb(far, far, c + 2)]
+        }
+        "seq_data_far_gap_wide" => {
+            let far = n + (1i64 << 40);
+            vec![wire::encode(p, &[data(ctx, far, Some(good_payload(3)), None, false)]), gap(n + 1, NumSet::from_set(n + 2, &[n + 3])), hb(n + 1, far, c)]
+        }
+        "seq_two_far_data_hb_between" => {
+            let far = n + (1i64 << 40);
+            vec![
+                wire::encode(p, &[data(ctx, far, Some(good_payload(3)), None, false)]),
+                wire::encode(p, &[data(ctx, far + (1i64 << 40), Some(good_payload(4)), None, false)]),
+                hb(far, far + (1i64 << 40), c),
+            ]
+        }
         "mangle_short" => vec![b"RTPS".to_vec(), vec![], b"RTPS\x02\x04\x01\x12DDSPINGxxxx"[..16].to_vec(), vec![0xff; 19]],
         _ => vec![],
     }
@@ -228,6 +276,8 @@ pub fn writer_datagrams(cls: &str, ctx: &Ctx) -> Vec<Vec<u8>> {
             let full = ack(NumSet::from_set(1, &[1, 2, 40]), c);
             (20..full.len()).map(|k| full[..k].to_vec()).collect()
         }
+        "seq_ack_far_then_low" => vec![ack(NumSet::empty(n + (1i64 << 40)), c), ack(NumSet::from_set(1, &[1, 2, 3]), c + 1)],
+        "seq_ack_low_bits_then_far" => vec![ack(NumSet { base: 1, num_bits: 256, words: vec![0xffff_ffff; 8] }, c), ack(NumSet::empty(n + (1i64 << 40)), c + 1), ack(NumSet { base: 1, num_bits: 256, words: vec![0xffff_ffff; 8] }, c + 2)],
         "ack_unknown_writer" => vec![wire::encode(p, &[Sub::AckNack { reader: ctx.reader_eid, writer: [9, 9, 9, 2], set: NumSet::empty(5), count: c, final_flag: true }])],
         _ => vec![],
     }
